@@ -433,6 +433,9 @@ def check_case(am, case):
 
 def replay_cases():
     return [dict(kind='basis', cell='triclinic', hkl=(1, -2, 1), cut='b', four=False, setting=None, key='basis,triclinic,(1,-2,1),b'),
+            dict(kind='basis', cell='cubic', hkl=(1, 0, -1), cut='c', four=False, setting=None, key='basis,cubic,(1,0,-1),c'),
+            dict(kind='basis', cell='monoclinic', hkl=(-2, 1, 0), cut='a', four=False, setting=None, key='basis,monoclinic,(-2,1,0),a'),
+            dict(kind='basis', cell='hexagonal', hkl=(0, 1, -2), cut='b', four=True, setting=None, key='basis,hexagonal,(0,1,-1,-2),b'),
             dict(kind='basis', cell='cubic', hkl=(1, 1, 1), cut='c', four=False, setting='f', key='basis,cubic/f,(1,1,1),c'),
             dict(kind='surface', crystal='fcc', hkl=[1, 1, 1], setting='p', cut='c', key='surface,fcc,111,c'),
             dict(kind='surface', crystal='hcp', hkl=[1, 0, -1, 0], setting='p', cut='a', key='surface,hcp,10-10,a')]
